@@ -22,5 +22,10 @@ for patch in sys.argv[1:]:
     for pid in pids:
         _, info = bodies.regenerate(pid, ROOT, os.path.join(ROOT, "build", "harmless"))
         if info["failed"]: out.append("%s: %s" % (pid, "; ".join("%s (%s)" % (n, " ".join(str(info.get("logs", {}).get(n, "")).split())[:140]) for n in info["failed"])))
+    # the crate-wide surface assertion belongs to every property of the crate: evaluated once here
+    import json as _json
+    _inv = _json.load(open(os.path.join(ROOT, "translator", "inventory.json")))
+    for c_ in sorted({t.split("/")[1] for t in touched if t.startswith("crates/")}):
+        if bodies.crate_surface(c_) != _inv.get("/surface:" + c_): out.append("every property of crate %s: crate_surface_%s" % (c_, c_))
     print("%s  touches %s  ->  %s" % (patch, ",".join(os.path.basename(t) for t in touched), "ALL OBLIGATIONS HOLD (%s)" % ",".join(pids) if not out else "BROKEN " + " | ".join(out)), flush=True)
 sh("git -C /repo worktree remove --force %s; git -C /repo worktree prune" % WT)
